@@ -728,7 +728,10 @@ def run_case(res, box, i, tier):
                             dict(ctx, local=core.hx(l)))
     if mode != "nocdb":
         chosen["entries"] = entries
-        chosen["fallback"] = lambda l: um.getpw_lookup(model_accounts, home_owner, l, ALIAS)
+        if mode in ("getpw-missing", "getpw-fails"):
+            chosen["fallback"] = lambda l: None
+        else:
+            chosen["fallback"] = lambda l: um.getpw_lookup(model_accounts, home_owner, l, ALIAS)
     reports, records, ev, problem = box.lspawn(locals_, domain)
     if problem:
         res.inconclusive.append("case %d: %s" % (i, problem))
